@@ -4,7 +4,7 @@ set -eu
 cd "$(dirname "$0")"
 export CARGO_NET_OFFLINE=true
 mkdir -p logs evidence replays
-CARGO_TARGET_DIR=.target/plain cargo build --release --offline -p e2pure -p e_c08 -p e_c09 -p e_c20 -p e_c06 -p e_c05 -p e_c17 -p e_c18 -p e_c07 -p e_c14 -p e_c15
+CARGO_TARGET_DIR=.target/plain cargo build --release --offline -p e2pure -p e_c08 -p e_c09 -p e_c20 -p e_c06 -p e_c05 -p e_c17 -p e_c18 -p e_c07 -p e_c14 -p e_c15 -p e_c16
 RUSTC_BOOTSTRAP=1 CARGO_TARGET_DIR=.target/pidfd cargo build --release --offline -p e_c20 --features pidfd || true
 CARGO_TARGET_DIR=.target/loom RUSTFLAGS="--cfg loom" cargo build --release --offline -p e3loom
 CARGO_TARGET_DIR=.target/hooks RUSTFLAGS="--cfg compio_verif" cargo build --release --offline -p e_c03 -p e_c01
